@@ -2305,6 +2305,21 @@ def rule_X7_children(F, R):
                     R.count('X7:position-tests'); R.obligation(ok, 'X7 position %s' % e.get('loc'))
                     if not ok: R.violation('%s / X7 / target of an edge' % te[0], 'X7', 'the node an edge leads to must be found by equality with the child (`position(|n| n == child)`)', e.get('loc'))
     if te and n == 0: R.violation('rsbdd::parser_io::SymbolicParseTree / X7 / VACUITY', 'VACUITY', 'no position look-up found in the parse-tree edges')
+    # the node list of the parse-tree graph is every index of self.nodes: 0..len
+    tn_ = [k for k in lib.ithir if k.endswith('GraphWalk>::nodes') and 'SymbolicParseTree' in k]
+    if tn_:
+        tt_ = lib.ithir[tn_[0]]
+        rngs = [x for x in walk(tt_['body']) if x['k'] == 'Adt' and canon(x['adt']) == 'std::ops::Range']
+        incl = [x for x in walk(tt_['body']) if x['k'] == 'Call' and callee_name(x) == 'std::ops::RangeInclusive::new']
+        thin = [x for x in walk(tt_['body']) if x['k'] == 'Call' and (callee_name(x) or '').split('::')[-1] in ('skip', 'take', 'filter', 'step_by', 'skip_while', 'take_while')]
+        okr = True
+        if rngs or incl or thin:
+            okr = len(rngs) == 1 and not incl and not thin
+            if okr:
+                lo = [f['expr'] for f in rngs[0]['fields'] if f['name'] == 'start'][0]; hi = strip([f['expr'] for f in rngs[0]['fields'] if f['name'] == 'end'][0])
+                okr = str(strip(lo).get('value')) == '0' and hi['k'] == 'Call' and (callee_name(hi) or '').split('::')[-1] == 'len' and any(y['k'] == 'Field' and y.get('field_name') == 'nodes' for y in walk(hi))
+        R.count('X7:parse-tree-node-range'); R.obligation(okr, 'X7 node range')
+        if not okr: R.violation('%s / X7 / node list' % tn_[0], 'X7', 'the nodes of the parse-tree graph must be all indices 0..self.nodes.len()', tt_['span']['loc'])
 
 def rule_X7(F, R):
     """C14: (a) every label of both exporters is built as plain text that the dot crate escapes (LabelText::label / LabelStr) - the
@@ -2650,6 +2665,25 @@ def row_text(binc, t, k):
         if k_ == 'If' or k_ == 'Loop' or k_ == 'Match': raise _RowUndec('control flow %s in the row printer' % k_)
     run(t['body'], {})
     return ''.join(out)
+
+def rule_X4_header_call(F, R):
+    """C10: the table comes with its header: wherever main calls the table printer, the same block calls print_header before it"""
+    binc = F.bin()
+    main = binc.ithir.get('rsbdd::main') if binc else None
+    if main is None or binc.ithir.get('rsbdd::print_header') is None:
+        R.count('X4:header-call'); return
+    n = 0
+    for b in walk(main['body']):
+        if b['k'] != 'Block': continue
+        seq = stmts_in_order(b)
+        for i, st in enumerate(seq):
+            x = st.get('expr') if st['k'] == 'Expr' else st.get('init')
+            if x is None or not any(y['k'] == 'Call' and callee_name(y) == 'rsbdd::print_truth_table_recursive' for y in walk(x)): continue
+            if any(y['k'] == 'Block' and y is not x and any(z['k'] == 'Call' and callee_name(z) == 'rsbdd::print_truth_table_recursive' for z in walk(y)) for y in walk(x) if y is not x and y['k'] == 'Block'): continue     # an outer block: judged at the inner one
+            n += 1
+            before = any(any(y['k'] == 'Call' and callee_name(y) == 'rsbdd::print_header' for y in walk(s2.get('expr') if s2['k'] == 'Expr' else s2.get('init') or {'k': 'Tuple', 'fields': []})) for s2 in seq[:i])
+            R.count('X4:header-call'); R.obligation(before, 'X4 header call')
+            if not before: R.violation('rsbdd::main / X4 / header of the table', 'X4', 'the table printer is called without print_header before it in the same block', x.get('loc'))
 
 def rule_X12_header(F, R):
     """C10: the header names the columns: print_header walks its labels and writes each one to standard output (a header whose loop no
